@@ -98,15 +98,18 @@ func init() {
 		c.ruleImportScope()
 		c.ruleIterPackages()
 		c.ruleIndexSrc()
+		c.ruleToolIdentity()
+		c.ruleCopyWriteback("util")
+		c.ruleWalkRoot("immutable", "constructor", "testonly", "packageonly")
 		c.ruleLangEq("@immutable", "@testonly", "@mutable", "@implements", "@constructor", "@packageonly")
 		c.rulePost("@constructor", "@packageonly")
-		c.only([]string{"IMMUTABLE-INDEX", "MUTABLE-FIELD", "CTOR-EXEMPTION", "CONSTRUCTOR-INDEX", "TYPES-INDEX", "FUNCS-INDEX", "METHODS-INDEX", "ANNOTATED", "ALLOWED-BY", "FLOOR"}, func() {
+		c.only([]string{"IMMUTABLE-INDEX", "MUTABLE-FIELD", "CTOR-EXEMPTION", "CONSTRUCTOR-INDEX", "TYPES-INDEX", "FUNCS-INDEX", "METHODS-INDEX", "ANNOTATED", "ALLOWED-BY", "PACKAGE-LEVEL", "CALLEE-BY-OBJECT", "FLOOR"}, func() {
 			c.ruleSitesIMM()
 			c.ruleSitesCTOR()
 			c.ruleSitesTONL()
 			c.ruleSitesPKGO()
 		})
-	}, Explanation: "Fact discipline: every analyzer with FactTypes exports, unconditionally and before any live return, a fact of its own type holding the complete PackageAnnotations; ResultOf uses are in Requires with matching ResultType; fact types are gob-encodable field by field (all exported, same shape as PackageAnnotations); builders are instantiated with the calling analyzer's fact type; facts are imported only over pass.Pkg.Imports(), every import is consulted (a missing fact skips one import only), local and imported annotations are processed by the same statements; no object facts / AllPackageFacts. Plus the grammar/argument languages that carry annotation values and the per-family guard signatures that consume them (package-path keyed, no local-only condition except the documented own-package constructor exemption)."})
+	}, Explanation: "Fact discipline: every analyzer with FactTypes exports, unconditionally and before any live return, a fact of its own type holding the complete PackageAnnotations; ResultOf uses are in Requires with matching ResultType; fact types are gob-encodable field by field (all exported, same shape as PackageAnnotations); builders are instantiated with the calling analyzer's fact type; facts are imported only over pass.Pkg.Imports(), every import is consulted (a missing fact skips one import only), local and imported annotations are processed by the same statements; no object facts / AllPackageFacts; the containers that carry annotation values store a mutated copy back (COPY-WRITEBACK); every checker walks every declaration of every non-excluded file under no condition but the documented ones (WALK-ROOT: a run that is skipped for one variant of a package makes the drivers disagree); the answer to `-V=full`, on which `go vet` keys its cache of facts, covers every environment variable the configuration reads (TOOL-ID, found as D38). Plus the grammar/argument languages that carry annotation values and the per-family guard signatures that consume them (package-path keyed, no local-only condition except the documented own-package constructor exemption)."})
 
 	registerProp(&propDef{ID: "C07", Rules: func(c *Ctx) {
 		c.ruleIgnoreScope()
@@ -123,6 +126,7 @@ func init() {
 
 	registerProp(&propDef{ID: "C08", Rules: func(c *Ctx) {
 		c.ruleExcludeFlow()
+		c.ruleExcludeConsumers()
 		c.ruleFlagTable()
 		c.ruleParseHelpers()
 		c.ruleConfigWiring()
@@ -145,8 +149,11 @@ func init() {
 		c.ruleCfgSrc()
 		c.ruleConfigWiring()
 		c.only([]string{"NOT-TEST-FILE", "FLOOR"}, func() { c.ruleSitesTONL() })
+		// "checked like any other file": the package a @packageonly reference is made from is the package of the
+		// pass itself - an external test package x_test is not its package x
+		c.only([]string{"ALLOWED-BY", "OTHER-PACKAGE", "FLOOR"}, func() { c.ruleSitesPKGO() })
 		c.rulePosInFile()
-	}, Explanation: "pass.Files is read in exactly one place, Config.FilterFiles, which yields every file for which ShouldSkipFile is false; ShouldSkipFile is true exactly for (name contains an exclude-paths entry) or (!ScanTests and name ends in _test.go), on the file's own name; every reader/checker filters with the effective configuration of its own pass; every TONL site is additionally guarded by !HasSuffix(name,\"_test.go\") regardless of configuration; every diagnostic position is Pos() of a node of a filtered file (or of an annotation read from one)."})
+	}, Explanation: "pass.Files is read in exactly one place, Config.FilterFiles, which yields every file for which ShouldSkipFile is false; ShouldSkipFile is true exactly for (name contains an exclude-paths entry) or (!ScanTests and name ends in _test.go), on the file's own name; every reader/checker filters with the effective configuration of its own pass; every TONL site is additionally guarded by !HasSuffix(name,\"_test.go\") regardless of configuration; the referring package of every PKGO site is pass.Pkg itself (path and name unedited: an external test package is checked as what it is); every diagnostic position is Pos() of a node of a filtered file (or of an annotation read from one)."})
 
 	registerProp(&propDef{ID: "C15", Rules: func(c *Ctx) {
 		c.ruleLangEq()
@@ -169,6 +176,8 @@ func init() {
 			c.ruleSitesTONL()
 			c.ruleSitesPKGO()
 		})
+		// ... and nothing but that decision drops it: the once-per-file bookkeeping comes after the gate
+		c.ruleGateBeforeDedup("testonly", "packageonly")
 	}, Explanation: "All outcomes of IgnoreSet.Contains enumerated (through the result cell of the range-over-func loops): false for nil/uninitialised; true iff a global token equals (slices.Contains) an element of GetCodesForCheck(code); fast reject only for pos strictly outside [MinPos,MaxPos] and only after the global phase; true iff StartPos <= pos <= EndPos for a marker taken from a range over CodeIndex[element of GetCodesForCheck(code)]; positions are only compared; Add appends every marker, indexes it under each of its codes, maintains MinPos/MaxPos as min/max; GetCodesForCheck yields ALL, category, code from a table built for every category and code."})
 
 	registerProp(&propDef{ID: "C19", Rules: func(c *Ctx) {
